@@ -1,6 +1,7 @@
 (* C12 -- within a builder the most recent instruction for a target wins. *)
 From Coq Require Import List ZArith Bool Arith Lia.
-From Goom Require Import Model.Stub Model.MockerLevel Proofs.MockerLevelProofs Proofs.MockerHistory.
+From Goom Require Import Model.Stub Model.MockerLevel Proofs.MockerLevelProofs Proofs.MockerHistory Tie.MockerUniformTie.
+From Goom Require Gen.MockerSkeleton.
 Import ListNotations.
 Open Scope Z_scope.
 
@@ -80,6 +81,17 @@ Proof.
   split; [|split; vm_compute; reflexivity].
   cbn. repeat (split; [first [exact I | lia | (eexists; eexists; repeat split; reflexivity)]|]). exact I.
 Qed.
+
+(* the model has ONE kind of mocker; goom has five (function, method, unexported function, unexported method, interface
+   method) on one base mocker. What the model's Apply / re-apply rules need from each of them -- every Apply discards
+   the stale When before installing, every applyBy* installs the guard, records the callback and clears the cancelled
+   mark -- is checked on the skeletons regenerated from mocker.go / iface.go (findings F12b and F12c were one kind
+   diverging from its siblings) *)
+Theorem C12_mocker_kinds_uniform :
+  forallb apply_ok apply_skeletons = true /\ forallb applyby_ok applyby_skeletons = true /\
+  cancel_ok Gen.MockerSkeleton.baseMocker_Cancel_skeleton = true.
+Proof. exact mocker_kinds_uniform. Qed.
+Print Assumptions C12_mocker_kinds_uniform.
 
 (* non-vacuity / the history of finding F12: When; Apply; Return -- the Return must win *)
 Example C12_when_apply_return :
